@@ -17,6 +17,7 @@ int vk_thorough, vk_shard, vk_nshards = 1, vk_replay_mode;
 const char *vk_only;
 double vk_deadline_s;
 int vk_nviol;
+int vk_want_trace;
 static FILE *vk_out;
 static double vk_t0;
 static int vk_argc;
@@ -56,6 +57,7 @@ void vk_init(int argc, char **argv)
 	if (vk_opt("deadline", &v)) vk_deadline_s = atof(v);
 	if (vk_opt("replay", &v)) vk_replay_mode = 1;
 	if (vk_opt("out", &v)) vk_out = fopen(v, "w");
+	vk_want_trace = vk_opt("trace-isa", &v);
 	if (!vk_out) vk_out = stdout;
 	setvbuf(vk_out, NULL, _IOLBF, 0);
 	vk_faults_install();
@@ -174,8 +176,11 @@ void vk_note(const char *fmt, ...)
 	json_escape(e, sizeof e, b);
 	vk_emit("{\"type\":\"note\",\"text\":\"%s\"}", e);
 }
+void vk_trace_finish(void);
+static void tr_set_name(const char *name);
 void vk_finish(void)
 {
+	vk_trace_finish();
 	for (int i = 0; i < nstats; i++)
 		vk_emit("{\"type\":\"stat\",\"name\":\"%s\",\"value\":%llu,\"max\":%d}", stats[i].name, (unsigned long long)stats[i].v, stats[i].is_max);
 	for (int i = 0; i < ndsets; i++) {
@@ -356,6 +361,7 @@ uint64_t vk_vcall_n(void *fn, const char *name, int nargs, ...)
 	vcall_env *e = &vk_env;
 	if (!fn) { fprintf(stderr, "vkit: NULL function %s\n", name); abort(); }
 	e->mode = vk_call_mode | (vk_have_avx512 ? VC_AVX512 : 0);
+	if (vk_trace_on) e->mode |= VC_TRACE;
 	e->poison = vk_call_poison;
 	if ((e->mode & VC_STACK) && !stack_cap_buf) stack_cap_buf = malloc(VC_DEAD);
 	e->stack_cap = (e->mode & VC_STACK) ? stack_cap_buf : NULL;
@@ -365,6 +371,7 @@ uint64_t vk_vcall_n(void *fn, const char *name, int nargs, ...)
 	e->nstack = nargs > 6 ? nargs - 6 : 0;
 	vk_cur_fn = name;
 	vk_ncalls++;
+	if (vk_trace_on) tr_set_name(name);
 	vk_distinct("functions_called", vk_hash(name, strlen(name), 77));
 	vcall(fn, e);
 	if (vk_abi_enabled) vk_abi_check(NULL);
@@ -497,3 +504,183 @@ void vk_sec_scan(const char *fn, const char *shape)
 	}
 }
 
+
+/* ---------- ISA measurement by single-stepping (C12) ---------- */
+const char *vk_isa_names[ISA_NCLASS] = { "SSE4.1", "SSE4.2", "AVX", "AVX2", "AVX512F", "AVX512VL", "AVX512BW", "AVX512DQ", "AVX512CD", "SHA", "VAES",
+	"VPCLMULQDQ", "GFNI", "AVX512VBMI2", "AVX512VNNI", "AVX512BITALG", "AVX512VPOPCNTDQ", "ZMM/opmask state", "YMM state",
+	"(ssse3)", "(aesni)", "(pclmulqdq)", "(bmi)" };
+int vk_trace_on;
+static uintptr_t tr_lo, tr_hi;
+static uint64_t *tr_set; static size_t tr_cap, tr_n; static uint64_t tr_traps;
+#define TR_MAXNAMES 1024
+static char tr_names[TR_MAXNAMES][96]; static int tr_nnames; static int tr_cur;
+static void on_trap(int sig, siginfo_t *si, void *uc_)
+{
+	ucontext_t *uc = uc_;
+	uintptr_t rip = uc->uc_mcontext.gregs[REG_RIP];
+	(void)sig; (void)si;
+	tr_traps++;
+	if (rip < tr_lo || rip >= tr_hi) return;
+	uint64_t k = ((uint64_t)tr_cur << 40) | (rip - tr_lo) | (1ull << 63);
+	size_t j = vk_mix(k) & (tr_cap - 1);
+	while (tr_set[j]) { if (tr_set[j] == k) return; j = (j + 1) & (tr_cap - 1); }
+	if (tr_n * 2 > tr_cap) return;
+	tr_set[j] = k; tr_n++;
+}
+void vk_trace_enable(void)
+{
+	struct sigaction sa;
+	tr_lo = ~0ul; tr_hi = 0;
+	for (unsigned i = 0; i < vk_nsyms; i++) if (vk_symtab[i].type == 'T') {
+		uintptr_t a = (uintptr_t)vk_symtab[i].addr;
+		if (a < tr_lo) tr_lo = a;
+		if (a > tr_hi) tr_hi = a;
+	}
+	tr_hi += 1 << 16;
+	tr_cap = 1 << 24; tr_set = calloc(tr_cap, 8);
+	memset(&sa, 0, sizeof sa);
+	sa.sa_sigaction = on_trap; sa.sa_flags = SA_SIGINFO | SA_ONSTACK;
+	sigemptyset(&sa.sa_mask);
+	sigaction(SIGTRAP, &sa, NULL);
+	vk_trace_on = 1;
+	vk_call_mode |= VC_TRACE;
+}
+static void tr_set_name(const char *name)
+{
+	if (tr_cur < tr_nnames && !strcmp(tr_names[tr_cur], name)) return;
+	for (int i = 0; i < tr_nnames; i++) if (!strcmp(tr_names[i], name)) { tr_cur = i; return; }
+	if (tr_nnames == TR_MAXNAMES) { tr_cur = TR_MAXNAMES - 1; return; }
+	snprintf(tr_names[tr_nnames], sizeof tr_names[0], "%s", name);
+	tr_cur = tr_nnames++;
+}
+static int has(const char *s, const char *t) { return strstr(s, t) != NULL; }
+static int mn_in(const char *mn, const char *const *list) { for (; *list; list++) if (!strcmp(mn, *list)) return 1; return 0; }
+static uint32_t classify(uintptr_t addr, const char *text)
+{
+	char mn[32]; int i = 0;
+	while (text[i] && text[i] != ' ' && text[i] != '\t' && i < 31) { mn[i] = text[i]; i++; }
+	mn[i] = 0;
+	const char *ops = text + i;
+	uint32_t c = 0;
+	/* encoding class from the raw bytes (addr is a true instruction start: it was executed) */
+	const uint8_t *b = (const uint8_t *)addr;
+	int k = 0, evex = 0, vex = 0, ll = 0;
+	while (k < 6 && (b[k] == 0x66 || b[k] == 0xf2 || b[k] == 0xf3 || b[k] == 0x2e || b[k] == 0x36 || b[k] == 0x3e || b[k] == 0x26 || b[k] == 0x64 || b[k] == 0x65 || b[k] == 0x67)) k++;
+	if (b[k] == 0x62) { evex = 1; ll = (b[k + 3] >> 5) & 3; }
+	else if (b[k] == 0xc4) { vex = 1; ll = (b[k + 2] >> 2) & 1; }
+	else if (b[k] == 0xc5) { vex = 1; ll = (b[k + 1] >> 2) & 1; }
+	static const char *const bmi[] = { "andn", "bextr", "bzhi", "mulx", "pdep", "pext", "rorx", "sarx", "shlx", "shrx", "blsi", "blsr", "blsmsk", "tzcnt", "lzcnt", NULL };
+	if (mn_in(mn, bmi)) return 1u << ISA_INFO_BMI;
+	int zmm = has(ops, "%zmm"), ymm = has(ops, "%ymm"), kreg = has(ops, "%k0") || has(ops, "%k1") || has(ops, "%k2") || has(ops, "%k3") || has(ops, "%k4") || has(ops, "%k5") || has(ops, "%k6") || has(ops, "%k7");
+	if (!strncmp(mn, "sha1", 4) || !strncmp(mn, "sha256", 6)) c |= 1u << ISA_SHA;
+	if (!strncmp(mn, "vgf2p8", 6) || !strncmp(mn, "gf2p8", 5)) c |= 1u << ISA_GFNI;
+	if (!strncmp(mn, "aes", 3)) c |= 1u << ISA_INFO_AESNI;
+	if (!strcmp(mn, "pclmulqdq") || !strncmp(mn, "pclmul", 6)) c |= 1u << ISA_INFO_PCLMUL;
+	if (mn[0] == 'k' && kreg) {   /* opmask instructions are VEX encoded */
+		size_t l = strlen(mn);
+		c |= (1u << ISA_AVX512F) | (1u << ISA_ZMM_STATE);
+		if (mn[l - 1] == 'd' || mn[l - 1] == 'q') c |= 1u << ISA_AVX512BW;
+		if (mn[l - 1] == 'b') c |= 1u << ISA_AVX512DQ;
+		return c;
+	}
+	if (evex) {
+		static const char *const bw[] = { "vmovdqu8", "vmovdqu16", "vpshufb", "vpalignr", "vpaddb", "vpaddw", "vpsubb", "vpsubw", "vpcmpeqb", "vpcmpeqw", "vpcmpb", "vpcmpub", "vpcmpw", "vpcmpuw",
+			"vpcmpgtb", "vpcmpgtw", "vptestmb", "vptestmw", "vptestnmb", "vptestnmw", "vpbroadcastb", "vpbroadcastw", "vpblendmb", "vpblendmw", "vpsllw", "vpsrlw", "vpsraw", "vpsllvw", "vpsrlvw", "vpsravw",
+			"vpmovm2b", "vpmovm2w", "vpmovb2m", "vpmovw2m", "vpunpcklbw", "vpunpckhbw", "vpunpcklwd", "vpunpckhwd", "vpacksswb", "vpackssdw", "vpackuswb", "vpackusdw", "vpshuflw", "vpshufhw",
+			"vpmaddwd", "vpmaddubsw", "vpmullw", "vpmulhw", "vpmulhuw", "vpmulhrsw", "vpsadbw", "vdbpsadbw", "vpermw", "vpermi2w", "vpermt2w", "vpminub", "vpmaxub", "vpminsb", "vpmaxsb", "vpminuw", "vpmaxuw", "vpminsw", "vpmaxsw",
+			"vpslldq", "vpsrldq", "vpextrb", "vpextrw", "vpinsrb", "vpinsrw", "vpabsb", "vpabsw", "vpavgb", "vpavgw", "vpaddsb", "vpaddsw", "vpaddusb", "vpaddusw", "vpsubsb", "vpsubsw", "vpsubusb", "vpsubusw", "vpmovwb", "vpmovzxbw", "vpmovsxbw", NULL };
+		static const char *const dq[] = { "vpmullq", "vpextrd", "vpextrq", "vpinsrd", "vpinsrq", "vinserti32x8", "vinserti64x2", "vinsertf32x8", "vinsertf64x2", "vextracti32x8", "vextracti64x2", "vextractf32x8", "vextractf64x2",
+			"vbroadcasti32x2", "vbroadcasti32x8", "vbroadcasti64x2", "vbroadcastf32x2", "vbroadcastf32x8", "vbroadcastf64x2", "vpmovm2d", "vpmovm2q", "vpmovd2m", "vpmovq2m", "vandps", "vandpd", "vandnps", "vandnpd", "vorps", "vorpd", "vxorps", "vxorpd", NULL };
+		static const char *const cd[] = { "vpconflictd", "vpconflictq", "vplzcntd", "vplzcntq", "vpbroadcastmb2q", "vpbroadcastmw2d", NULL };
+		static const char *const vbmi2[] = { "vpcompressb", "vpcompressw", "vpexpandb", "vpexpandw", "vpshldw", "vpshldd", "vpshldq", "vpshldvw", "vpshldvd", "vpshldvq", "vpshrdw", "vpshrdd", "vpshrdq", "vpshrdvw", "vpshrdvd", "vpshrdvq", NULL };
+		static const char *const vnni[] = { "vpdpbusd", "vpdpbusds", "vpdpwssd", "vpdpwssds", NULL };
+		static const char *const bitalg[] = { "vpopcntb", "vpopcntw", "vpshufbitqmb", NULL };
+		static const char *const popc[] = { "vpopcntd", "vpopcntq", NULL };
+		size_t l = strlen(mn);
+		int scalar = l > 2 && mn[l - 2] == 's' && (mn[l - 1] == 's' || mn[l - 1] == 'd');
+		c |= 1u << ISA_AVX512F;
+		if (ll == 2 || zmm) c |= 1u << ISA_ZMM_STATE;
+		else if (!scalar) c |= 1u << ISA_AVX512VL;
+		if (kreg) c |= 1u << ISA_ZMM_STATE;
+		if (ymm) c |= 1u << ISA_YMM_STATE;
+		if (mn_in(mn, bw)) c |= 1u << ISA_AVX512BW;
+		if (mn_in(mn, dq)) c |= 1u << ISA_AVX512DQ;
+		if (mn_in(mn, cd)) c |= 1u << ISA_AVX512CD;
+		if (mn_in(mn, vbmi2)) c |= 1u << ISA_VBMI2;
+		if (mn_in(mn, vnni)) c |= 1u << ISA_VNNI;
+		if (mn_in(mn, bitalg)) c |= 1u << ISA_BITALG;
+		if (mn_in(mn, popc)) c |= 1u << ISA_VPOPCNTDQ;
+		if (!strncmp(mn, "vaes", 4)) c |= 1u << ISA_VAES;
+		if (!strcmp(mn, "vpclmulqdq")) c |= 1u << ISA_VPCLMULQDQ;
+		return c;
+	}
+	if (vex) {
+		static const char *const avx2x[] = { "vpbroadcastb", "vpbroadcastw", "vpbroadcastd", "vpbroadcastq", "vpsllvd", "vpsllvq", "vpsrlvd", "vpsrlvq", "vpsravd", "vpblendd", "vpermd", "vpermq", "vpermps", "vpermpd",
+			"vpmaskmovd", "vpmaskmovq", "vinserti128", "vextracti128", "vbroadcasti128", "vperm2i128", "vpgatherdd", "vpgatherdq", "vpgatherqd", "vpgatherqq", NULL };
+		static const char *const avxonly[] = { "vpermilps", "vpermilpd", "vperm2f128", "vptest", NULL };
+		c |= 1u << ISA_AVX;
+		if (ymm || ll) c |= 1u << ISA_YMM_STATE;
+		if (mn_in(mn, avx2x)) c |= 1u << ISA_AVX2;
+		else if (ymm && mn[1] == 'p' && !mn_in(mn, avxonly)) c |= 1u << ISA_AVX2;
+		else if (ymm && !strcmp(mn, "vmovntdqa")) c |= 1u << ISA_AVX2;
+		if (!strncmp(mn, "vaes", 4) && ymm) c |= 1u << ISA_VAES;
+		if (!strcmp(mn, "vpclmulqdq") && ymm) c |= 1u << ISA_VPCLMULQDQ;
+		return c;
+	}
+	{
+		static const char *const sse41[] = { "pblendw", "pblendvb", "pinsrb", "pinsrd", "pinsrq", "pextrb", "pextrd", "pextrq", "ptest", "pmulld", "pminsb", "pmaxsb", "pminuw", "pmaxuw", "pminud", "pmaxud", "pminsd", "pmaxsd",
+			"pcmpeqq", "packusdw", "roundps", "roundpd", "roundss", "roundsd", "dpps", "dppd", "insertps", "extractps", "blendps", "blendpd", "blendvps", "blendvpd", "movntdqa", "mpsadbw", "phminposuw", "pmuldq",
+			"pmovzxbw", "pmovzxbd", "pmovzxbq", "pmovzxwd", "pmovzxwq", "pmovzxdq", "pmovsxbw", "pmovsxbd", "pmovsxbq", "pmovsxwd", "pmovsxwq", "pmovsxdq", NULL };
+		static const char *const sse42[] = { "pcmpgtq", "crc32b", "crc32w", "crc32l", "crc32q", "crc32", "pcmpestri", "pcmpestrm", "pcmpistri", "pcmpistrm", NULL };
+		static const char *const ssse3[] = { "pshufb", "palignr", "pabsb", "pabsw", "pabsd", "phaddw", "phaddd", "phaddsw", "phsubw", "phsubd", "phsubsw", "pmaddubsw", "pmulhrsw", "psignb", "psignw", "psignd", NULL };
+		if (mn_in(mn, sse41)) c |= 1u << ISA_SSE41;
+		if (mn_in(mn, sse42)) c |= 1u << ISA_SSE42;
+		if (mn_in(mn, ssse3)) c |= 1u << ISA_INFO_SSSE3;
+	}
+	return c;
+}
+static int cmp_u64(const void *a, const void *b) { uint64_t x = *(const uint64_t *)a, y = *(const uint64_t *)b; return x < y ? -1 : x > y; }
+void vk_trace_finish(void)
+{
+	if (!vk_trace_on || !tr_n) return;
+	/* unique executed addresses */
+	uint64_t *addrs = malloc(tr_n * 8); size_t na = 0;
+	for (size_t j = 0; j < tr_cap; j++) if (tr_set[j]) addrs[na++] = tr_set[j] & 0xffffffffffull;
+	qsort(addrs, na, 8, cmp_u64);
+	size_t nu = 0; for (size_t i = 0; i < na; i++) if (!nu || addrs[nu - 1] != addrs[i]) addrs[nu++] = addrs[i];
+	uint32_t *cls = calloc(nu, 4);
+	char cmd[256];
+	snprintf(cmd, sizeof cmd, "objdump -d -w --no-show-raw-insn --start-address=0x%lx --stop-address=0x%lx /proc/%d/exe", (unsigned long)tr_lo, (unsigned long)tr_hi, getpid());
+	FILE *f = popen(cmd, "r");
+	char line[512]; size_t decoded = 0;
+	while (f && fgets(line, sizeof line, f)) {
+		char *p = line; while (*p == ' ') p++;
+		char *e; unsigned long a = strtoul(p, &e, 16);
+		if (e == p || *e != ':') continue;
+		e++; while (*e == ' ' || *e == '\t') e++;
+		uint64_t off = a - tr_lo;
+		uint64_t *hit = bsearch(&off, addrs, nu, 8, cmp_u64);
+		if (!hit) continue;
+		size_t l = strlen(e); while (l && (e[l - 1] == '\n' || e[l - 1] == ' ')) e[--l] = 0;
+		cls[hit - addrs] = classify(a, e) | 0x80000000u;
+		decoded++;
+	}
+	if (f) pclose(f);
+	/* per function name */
+	for (int n = 0; n < tr_nnames; n++) {
+		uint32_t c = 0; size_t cnt = 0, undec = 0;
+		for (size_t j = 0; j < tr_cap; j++) if (tr_set[j] && ((tr_set[j] >> 40) & 0x7fffff) == (uint64_t)n) {
+			uint64_t off = tr_set[j] & 0xffffffffffull;
+			uint64_t *hit = bsearch(&off, addrs, nu, 8, cmp_u64);
+			cnt++;
+			if (hit && (cls[hit - addrs] & 0x80000000u)) c |= cls[hit - addrs] & 0x7fffffffu; else undec++;
+		}
+		if (!cnt) continue;
+		char list[512] = ""; int o = 0;
+		for (int b = 0; b < ISA_NCLASS; b++) if (c & (1u << b)) o += snprintf(list + o, sizeof list - o, "%s\"%s\"", o ? "," : "", vk_isa_names[b]);
+		vk_emit("{\"type\":\"isa\",\"fn\":\"%s\",\"mask\":%u,\"classes\":[%s],\"insns\":%zu,\"undecoded\":%zu}", tr_names[n], c, list, cnt, undec);
+	}
+	vk_emit("{\"type\":\"stat\",\"name\":\"single_step_traps\",\"value\":%llu,\"max\":0}", (unsigned long long)tr_traps);
+	vk_emit("{\"type\":\"stat\",\"name\":\"traced_instruction_addresses\",\"value\":%zu,\"max\":0}", nu);
+	free(addrs); free(cls);
+}
